@@ -153,16 +153,32 @@ def race(V, tier, seed):
     return r
 
 
+def contend(V, tier, seed):
+    """ids_for_parent (and get) against writers that are INSIDE the register: while a thread holds the write lock (what update_info
+    does for the length of its body) the answer does not come, and once it comes it is complete; then a soak of readers against
+    update_info callers. Supports the assumption that each Register method is one atomic step; needed by C07 (the WithdrawBulk of a
+    BMP session that ends while another connection registers a peer)."""
+    import subprocess
+    n = 20000 if tier == "quick" else 400000
+    p = subprocess.run([V.VH, "c14-contend", "8", str(n)], stdout=subprocess.PIPE, text=True, timeout=600)
+    out = p.stdout.strip()
+    r = {"name": "c14-contend", "evaluations": 1, "coverage": {"readers": 8, "writers": 4, "result": out}, "failures": []}
+    if not out.startswith("ok"):
+        r["failures"].append({"what": f"a list answer of the register was incomplete under contention (a read of the register must wait for a writer, "
+                                      f"not answer without looking): {out}", "kind": "property", "replay_cmd": f"{V.VH} c14-contend 8 {n}"})
+    return r
+
+
 ENGINES = [{"name": "c14", "gen": gen, "corpus": corpus, "nontrivial": nontrivial, "classify": classify, "shards": 4}]
 from props.e2e_common import e2e_engine, E2E_TRUSTED
 ENGINES.append(e2e_engine("C14"))   # a real bmp-tcp-in unit: returning routers keep their ingress id, also across a listener re-bind
 TRUSTED_BASE.append(E2E_TRUSTED)
-EXTRAS = [race]
+EXTRAS = [race, contend]
 
 LEVEL_TEXT = ("Theorems over all call histories of the Register model (freshness below the u32 bound, wrap-around shown sharp, "
               "lookup stability of peers and of routers under the callers' discipline, children-exactness, field-wise merge), kernel-checked, axiom-free; "
               "model tied to src/ingress.rs by differential execution of thousands of generated histories on every run.")
 DESIGN_REF = "DESIGN.md section 6, C14"
 LEVEL_NOTE = ("Trusted: Coq kernel, ExtrOcamlBasic extraction + OCaml driver, Rust harness and generators; atomicity of each Register method "
-              "(fetch_add / RwLock) is assumed, a 16-thread register race is run as supporting exploration only.")
+              "(fetch_add / RwLock) is assumed; a 16-thread register race, and readers (ids_for_parent, get) against a held write lock and against concurrent update_info callers, are run as supporting exploration only.")
 TECHNIQUE = "Coq proof by invariant over operation histories + model/implementation correspondence"
